@@ -21,6 +21,8 @@ pub enum Step {
     Finish { how: u8 },
     Advance { secs: u32 },
     Settle,
+    /// caller number `caller` (mod the callers so far) gives up: its get_record_from_network future is dropped
+    Cancel { caller: u8 },
 }
 
 #[derive(Serialize, Deserialize, Clone, Debug)]
@@ -136,6 +138,8 @@ impl Sim for GetRecordSim {
                 steps.push(Step::Run { sel: rng.below(1 << 16) as u32 });
             } else if adversarial && r < 94 {
                 steps.push(Step::Finish { how: rng.below(4) as u8 });
+            } else if adversarial && r < 97 {
+                steps.push(Step::Cancel { caller: rng.below(4) as u8 });
             } else {
                 steps.push(Step::Run { sel: 0 });
             }
